@@ -153,20 +153,20 @@ def showFile (names : List (Nat × String)) (s : State) : String :=
 def splitFiles (toks : List String) : List (List String) :=
   toks.foldr (fun t acc => if t == "||" then [] :: acc else match acc with | [] => [[t]] | x :: xs => (t :: x) :: xs) [[]]
 
-def runFiles (o : Opts) (files : List (List String)) : String :=
+def runFiles (o : Opts) (unfixed : Bool) (files : List (List String)) : String :=
   let rec go (s : State) (acc : FileAcc) : List (List String) → List String
     | [] => []
     | toks :: rest =>
       match parseChunks (toks.length + 2) acc toks with
       | some (acc', cs) =>
-        let s' := evalFile (substExpand acc'.tbl) o s cs
+        let s' := if unfixed then evalFileUnfixed (substExpand acc'.tbl) o s cs else evalFile (substExpand acc'.tbl) o s cs
         showFile acc'.names s' :: go s' acc' rest
       | none => ["bad-descriptor"]
   " ## ".intercalate (go State.init {} files)
 
 def runFileOp (arg : String) : String :=
   match words arg with
-  | o :: _seed :: toks => runFiles (optsOf o) (splitFiles toks)
+  | o :: _seed :: toks => runFiles (optsOf o) (o.toList.getD 2 ' ' == 'u') (splitFiles toks)
   | _ => "bad-op"
 
 def stepC39 (_ : Unit) (line : String) : Unit × String :=
